@@ -181,6 +181,13 @@ def run(tier, seed):
         "group keys are unique (nextest passes a map); usize overflow is not modelled",
         "threads-required >= 1 (0 is rejected by the config parser) for the serial and slot-bound clauses",
     ]
+    # end-to-end stage: generated multi-test runs of the real cargo-nextest over the scripted puppet
+    # workspace, judged by this property's oracle (lib/e2e_general.py)
+    try:
+        import e2e_general
+        e2e_general.stage(chk, PROP, tier, seed)
+    except RuntimeError as ex:
+        chk.violation("broken-obligation", "e2e-build", dict(error=str(ex)[-3000:]), no_input=True)
     return chk.finish(
         gate, "make -C coq Properties/C08.vo && coqc gen/assump_C08.v (Print Assumptions)",
         ["Coq 8.16.1 kernel + vm_compute",
